@@ -140,3 +140,63 @@ Lemma skeleton_sessions_lemma : forall (p : list skel) (any : bool), any = false
   map fst (fst (run_session (repaired true) p new_session))
   = map fst (fst (run_session (repaired false) p new_session)).
 Proof. intros p _ _. apply session_outcomes_reg_independent. exact new_session_top_level. Qed.
+
+(* ---------- all interleavings: inserted inputs at every position, with any multiplicity ---------- *)
+(* A history with each input tagged: [true] = an inserted input (the failing ones of the property; here ANY
+   input), [false] = an input of the base history. *)
+Definition all_inputs (h : list (bool * skel)) : list skel := map snd h.
+Definition base_inputs (h : list (bool * skel)) : list skel :=
+  map snd (filter (fun p => negb (fst p)) h).
+(* the observations of the base inputs inside the observations of the whole history *)
+Definition base_obs {A : Type} (h : list (bool * skel)) (obs : list A) : list A :=
+  map snd (filter (fun p => negb (fst (fst p))) (combine h obs)).
+
+Lemma base_obs_map : forall (A : Type) (f : skel -> A) (h : list (bool * skel)),
+  base_obs h (map f (all_inputs h)) = map f (base_inputs h).
+Proof.
+  intros A f h. unfold base_obs, all_inputs, base_inputs.
+  induction h as [|[b p] tl IH]; simpl; [reflexivity|].
+  destruct b; simpl; [exact IH | rewrite IH; reflexivity].
+Qed.
+
+Lemma interleaving_lemma : forall (r : bool) (h : list (bool * skel)) (s : session),
+  top_level (st s) ->
+  base_obs h (fst (run_session (repaired r) (all_inputs h) s))
+  = fst (run_session (repaired r) (base_inputs h) s).
+Proof.
+  intros r h s Ht.
+  destruct (run_session_shows r (all_inputs h) s Ht) as (A & _).
+  destruct (run_session_shows r (base_inputs h) s Ht) as (B & _).
+  rewrite A, B. apply base_obs_map.
+Qed.
+
+(* and the session ends in the same control state with and without the inserted inputs *)
+Lemma interleaving_state_lemma : forall (r : bool) (h : list (bool * skel)) (s : session),
+  top_level (st s) ->
+  st (snd (run_session (repaired r) (all_inputs h) s)) = st (snd (run_session (repaired r) (base_inputs h) s)).
+Proof.
+  intros r h s Ht.
+  destruct (run_session_shows r (all_inputs h) s Ht) as (_ & A).
+  destruct (run_session_shows r (base_inputs h) s Ht) as (_ & B).
+  rewrite A, B. reflexivity.
+Qed.
+
+(* ---------- any number of inputs (loops) in one session ---------- *)
+Definition no_register_failure (o : okind) : Prop :=
+  o <> OPanic PNoRegisters /\ o <> OPanic PNonLifo /\ o <> OStuck.
+
+Lemma long_session_lemma : forall (r : bool) (l : list skel) (s : session),
+  top_level (st s) ->
+  Forall (fun ot : okind * list probe => no_register_failure (fst ot)) (fst (run_session (repaired r) l s))
+  /\ st (snd (run_session (repaired r) l s)) = st s.
+Proof.
+  induction l as [|p l IH]; intros s Ht; simpl; [split; [constructor | reflexivity]|].
+  destruct (eval_one (repaired r) p s) as [[o s1] t] eqn:E.
+  destruct (eval_one_restores r p s Ht o s1 t E) as (Hst & _ & Hn1 & Hn2 & Hn3).
+  assert (Ht1 : top_level (st s1)) by (rewrite Hst; exact Ht).
+  destruct (IH s1 Ht1) as (Hall & Hfin).
+  destruct (run_session (repaired r) l s1) as [obs s2] eqn:E2.
+  simpl in *. split.
+  - constructor; [|exact Hall]. simpl. unfold no_register_failure. repeat split; assumption.
+  - rewrite Hfin. exact Hst.
+Qed.
